@@ -225,9 +225,48 @@ func c15Signatures(c *core.Ctx) {
 	}
 }
 
+// c15DuringRun: an event that arrives while the top-level code is still running (delivered from the
+// platform's yield point) finds its handler and runs it once; nothing crashes.
+func c15DuringRun(c *core.Ctx) {
+	for _, at := range []int{3, 10, 40, 90, 200} {
+		src := "n := 0\non key k:string\n    n = n + 1\n    print \"key\" k\nend\nfor i := range 60\n    n = n + 10\nend\nprint \"top done\" n\n"
+		var ev *evaluator.Evaluator
+		delivered := false
+		var herr error
+		c.Journal(src)
+		o := plat.Run(src, plat.Opts{YieldBudget: 50000,
+			Attach: func(e *evaluator.Evaluator) { ev = e },
+			OnYield: func(n int) {
+				if n == at && ev != nil && !delivered {
+					delivered = true
+					herr = ev.HandleEvent(evaluator.Event{Name: "key", Params: []any{"a"}})
+				}
+			}})
+		c.Event("events_during_run", 1)
+		c.Distinct(fmt.Sprintf("during-run|%d", at))
+		if !delivered {
+			continue // the run was shorter than this yield
+		}
+		if o.Class == "gopanic" {
+			c.Violation("handler-program-failed:gopanic", fmt.Sprintf("event delivered at yield %d of the top-level run: Go panic %s", at, firstN(o.GoPanic, 200)), src, nil)
+			continue
+		}
+		keys := 0
+		for _, e := range o.Events {
+			if strings.HasPrefix(e, "print \"key a") {
+				keys++
+			}
+		}
+		if herr != nil || keys != 1 || o.Class != "ok" || len(o.Events) == 0 || o.Events[len(o.Events)-1] != "print \"top done 601\\n\"" {
+			c.Violation("event-during-run", fmt.Sprintf("event delivered at yield %d of the top-level run: handler error %v, handler ran %d times, run ended %s with %v", at, herr, keys, o.Class, o.Events), src, nil)
+		}
+	}
+}
+
 func c15Run(c *core.Ctx, i int) {
 	if i == 0 {
 		c15Signatures(c)
+		c15DuringRun(c)
 	}
 	r := c.Rng
 	c.Event("programs", 1)
